@@ -81,6 +81,8 @@ def _cstring(ctx):
     esc, _longest = pC11.rule_escape_table(ctx)
     rules = [esc, pC11.rule_escape_char(ctx), pC11.rule_raw_literals(ctx), sC11.rule_cut(ctx), sC11.rule_char_array(ctx), sC11.rule_sinks(ctx)]
     for r in rules:
+        if r.id == 'C11-SRC':
+            r.floor = 2      # three call sites today; a literal writer that escapes piece-wise and needs no splitter leaves two (the floor in pC11 equals the count)
         r.id = 'C10-CSTR-' + r.id.split('-', 1)[1]
         for f in r.findings:
             f.rule = r.id
